@@ -1,5 +1,5 @@
 """C05 — gamma reduces here-and-there satisfaction to classical satisfaction."""
-from ..facts import AnalysisGap
+from ..facts import AnalysisGap, walk
 from .. import hq, sym
 
 EXPLANATION = (
@@ -100,70 +100,96 @@ def rule_gamma(ctx):
             "gamma of a theory maps gamma over every formula", construct=vt)
 
 
+def _unbox(t):
+    if not isinstance(t, tuple):
+        return t
+    if t[:2] in (("call", "Box::new"), ("call", "Into::into"), ("call", "From::from")) and len(t[2]) == 1:
+        return _unbox(t[2][0])
+    if t[:1] == ("conv",) and len(t) == 3:
+        return _unbox(t[2])
+    return tuple(_unbox(x) for x in t)
+
+
 def rule_apply(ctx):
     fx = ctx.facts
     b = fx.fn("apply", impl_self=F)
-    v = sym.Eval(fx, inline_depth=0).function(b)
-    fpar = ("param", "f")
+    # decided per kind of node: the node is rebuilt from its recursively transformed children (in the order lhs, rhs), then f is applied to it
+    from ..leaves import norm as _norm
+    fpar = ("param", "$f")
 
     def A(x):
         return ("call", "Apply::apply", (x, fpar))
-
-    ref = ("callv", fpar, (("match", SELF, (
-        ("Formula::AtomicFormula(_)", SELF),
-        ("Formula::UnaryFormula{}", ("ctor", UF, (("connective", P((UF, "connective"))), ("formula", A(P((UF, "formula"))))))),
-        ("Formula::BinaryFormula{}", ("ctor", BF, (("connective", CONN), ("lhs", A(L)), ("rhs", A(R))))),
-        ("Formula::QuantifiedFormula{}", ("ctor", QFm, (("formula", A(P((QFm, "formula")))), ("quantification", P((QFm, "quantification")))))),
-    )),))
-    ctx.add("TPL", "apply:post-order", v == ref, ctx.site(b), "Apply::apply rebuilds every variant from its recursively transformed children and then applies f to the node", construct=v)
+    cases = {
+        "AtomicFormula": (("ctor", "Formula::AtomicFormula", (("0", ("param", "$a")),)), ("ctor", "Formula::AtomicFormula", (("0", ("param", "$a")),))),
+        "UnaryFormula": (("ctor", UF, (("connective", ("param", "$u")), ("formula", ("param", "$g")))), ("ctor", UF, (("connective", ("param", "$u")), ("formula", A(("param", "$g")))))),
+        "BinaryFormula": (("ctor", BF, (("connective", ("param", "$c")), ("lhs", ("param", "$l")), ("rhs", ("param", "$r")))),
+                          ("ctor", BF, (("connective", ("param", "$c")), ("lhs", A(("param", "$l"))), ("rhs", A(("param", "$r")))))),
+        "QuantifiedFormula": (("ctor", QFm, (("formula", ("param", "$g")), ("quantification", ("param", "$q")))), ("ctor", QFm, (("formula", A(("param", "$g"))), ("quantification", ("param", "$q"))))),
+    }
+    if set(fx.variants(F)) != set(cases):
+        raise AnalysisGap("Formula has constructors the case analysis of Apply::apply does not know: %s" % sorted(fx.variants(F)))
+    got = {}
+    for k_, (node_, want_) in cases.items():
+        r_ = _norm(sym.Eval(fx, inline_depth=0).function(b, [node_, fpar]))
+        # Box::new(x) / x.into() are the same boxing of a child
+        r_ = _unbox(r_)
+        got[k_] = r_ == ("callv", fpar, (want_,))
+    v = got
+    ctx.add("TPL", "apply:post-order", all(got.values()), ctx.site(b), "Apply::apply rebuilds every variant from its recursively transformed children and then applies f to the node", construct=got)
     af = fx.fn("Apply::apply_fixpoint")
     v2 = sym.Eval(fx, inline_depth=0).function(af)
     ctx.add("TPL", "apply:fixpoint-uses-apply", "Apply::apply" in repr(v2), ctx.site(af), "apply_fixpoint iterates Apply::apply", nontrivial=False)
 
 
 def rule_prefix(ctx):
+    """here() / there(): every atom of the formula gets the world's prefix in front of its predicate symbol, nothing else changes.  Anchored on
+    the two trait methods; the private helpers of gamma.rs they go through (one that walks the formula, or one that rewrites a single node
+    handed to Apply::apply) are evaluated in place, so how the work is split between them does not matter."""
     fx = ctx.facts
-    pp = fx.fn("gamma::prepend_predicate")
-    # the node transformer handed to Apply::apply, specialised on one node of every kind (so that `match`, `if let`, or an extracted helper
-    # that edits the atom in place all give the same result)
-    def transformer(arg):
-        ev = sym.Eval(fx, inline_depth=0)
+    GAMMA = "translating::classical_reduction::gamma::"
+    bodies = {name: fx.fn(name, impl_self=F) for name in ("here", "there")}
+
+    def transformer(name, arg):
+        """the node transformer that `name` hands to Apply::apply, specialised on the node `arg`"""
+        ev = sym.Eval(fx, inline_depth=3, inline=lambda dp: dp.startswith(GAMMA) and not dp.endswith("::gamma"))
         ev.closure_args = [[arg]]
-        t = ev.function(pp, [("param", "$formula"), ("param", "$prefix")])
-        if t[:2] != ("call", "Apply::apply") or t[2][0] != ("param", "$formula"):
+        t = ev.function(bodies[name], [SELF])
+        if t[:2] != ("call", "Apply::apply") or t[2][0] != SELF:
             return None, t
         f = t[2][1]
-        if f[0] == "closure":
-            return f[2], t
-        return None, t
+        return (f[2], t) if f[0] == "closure" else (None, t)
     ATOM = ("ctor", "Atom", (("predicate_symbol", ("param", "$p")), ("terms", ("param", "$ts"))))
     node = ("ctor", "Formula::AtomicFormula", (("0", ("ctor", "AtomicFormula::Atom", (("0", ATOM),))),))
-    got, whole = transformer(node)
-    pref = ("upd", ("param", "$p"), "insert_str", (("lit", 0), ("param", "$prefix")))
+    from ..leaves import norm as _norm
 
-    def prefixed(t):
-        """t is the atom node with `insert_str(0, prefix)` applied to its predicate symbol (whichever way the update is recorded)"""
+    def prefix_of(t):
+        """the literal put in front of the predicate symbol when t is the atom node with that prefix (by insert_str(0, ..) or by
+        format!("{prefix}{symbol}")) and nothing else changed; None otherwise"""
         if t is None:
-            return False
-        # the node rebuilt with `format!("{prefix}{symbol}")` as its symbol: the prefix in front, the terms as they were
-        built = ("ctor", "Formula::AtomicFormula", (("0", ("ctor", "AtomicFormula::Atom", (("0", ("ctor", "Atom", (
-            ("predicate_symbol", ("format", "{}{}", (("param", "$prefix"), ("param", "$p")))), ("terms", ("param", "$ts"))))),))),))
-        from ..leaves import norm as _norm
-        if _norm(t) == built:
-            return True
-        r = repr(t)
-        if r.count("insert_str") != 1 or "('lit', 0), ('param', '$prefix')" not in r:
-            return False
-        # remove the update: the rest must be the original node
+            return None
+        nt = _norm(t)
+        for x in sym.subterms(nt):
+            if isinstance(x, tuple) and x[:2] == ("format", "{}{}") and len(x[2]) == 2 and x[2][1] == ("param", "$p") and x[2][0][:1] == ("lit",):
+                built = ("ctor", "Formula::AtomicFormula", (("0", ("ctor", "AtomicFormula::Atom", (("0", ("ctor", "Atom", (("predicate_symbol", x), ("terms", ("param", "$ts"))))),))),))
+                return x[2][0][1] if nt == built else None
+        ups = [x for x in sym.subterms(t) if isinstance(x, tuple) and x[:1] == ("upd",) and str(x[2]).startswith("insert_str")]
+        if len(ups) != 1 or len(ups[0][3]) != 2 or ups[0][3][0] != ("lit", 0) or ups[0][3][1][:1] != ("lit",):
+            return None
+
         def strip_upd(x):
             if isinstance(x, tuple) and x and x[0] == "upd" and str(x[2]).startswith("insert_str"):
                 return strip_upd(x[1])
             if isinstance(x, tuple):
                 return tuple(strip_upd(y) for y in x)
             return x
-        return strip_upd(t) == node
-    ctx.add("FRESH-LIT", "prepend:every-atom", prefixed(got), ctx.site(pp),
-            "the transformer applied by prepend_predicate (through Apply::apply, i.e. to every node) inserts the prefix at index 0 of an atom's predicate symbol and keeps its terms", construct=got)
+        return ups[0][3][1][1] if strip_upd(t) == node else None
+    pre, got = {}, {}
+    for name in ("here", "there"):
+        got[name], _ = transformer(name, node)
+        pre[name] = prefix_of(got[name])
+    site = ctx.site(bodies["here"])
+    ctx.add("FRESH-LIT", "prepend:every-atom", all(isinstance(pre[n_], str) for n_ in pre), site,
+            "the transformer applied by here / there (through Apply::apply, i.e. to every node) puts the prefix in front of an atom's predicate symbol and keeps its terms", construct=got)
     others = {
         "truth": ("ctor", "Formula::AtomicFormula", (("0", ("ctor", "AtomicFormula::Truth", ())),)),
         "comparison": ("ctor", "Formula::AtomicFormula", (("0", ("ctor", "AtomicFormula::Comparison", (("0", ("param", "$c")),))),)),
@@ -172,23 +198,21 @@ def rule_prefix(ctx):
         "quantified": ("ctor", QFm, (("formula", ("param", "$f")), ("quantification", ("param", "$q")))),
     }
     for nm, n_ in others.items():
-        g_, _ = transformer(n_)
-        ctx.add("FRESH-LIT", "prepend:unchanged:" + nm, g_ == n_, ctx.site(pp), "a %s node is returned unchanged by the transformer (its children are visited by Apply::apply)" % nm, construct=g_)
-    pre = {}
+        gs = [_norm(transformer(name, n_)[0]) if transformer(name, n_)[0] is not None else None for name in ("here", "there")]
+        ctx.add("FRESH-LIT", "prepend:unchanged:" + nm, all(g_ == n_ for g_ in gs), site, "a %s node is returned unchanged by the transformer (its children are visited by Apply::apply)" % nm,
+                construct=gs)
     for name in ("here", "there"):
-        b = fx.fn(name, impl_self=F)
-        t = sym.Eval(fx, inline_depth=0).function(b)
-        ok = t[:2] == ("call", "gamma::prepend_predicate") and t[2][0] == SELF and t[2][1][0] == "lit"
-        pre[name] = t[2][1][1] if ok else None
-        ctx.add("FRESH-LIT", "prefix:" + name, ok and isinstance(pre[name], str) and len(pre[name]) > 0, ctx.site(b), "%s = prepend_predicate(self, %r)" % (name, pre[name]))
+        ctx.add("FRESH-LIT", "prefix:" + name, isinstance(pre[name], str) and len(pre[name]) > 0, ctx.site(bodies[name]), "%s puts %r in front of every predicate symbol" % (name, pre[name]))
     a, bb = pre.get("here"), pre.get("there")
-    ok = a is not None and bb is not None and a != bb and not a.startswith(bb) and not bb.startswith(a)
+    ok = isinstance(a, str) and isinstance(bb, str) and a != bb and not a.startswith(bb) and not bb.startswith(a)
     ctx.add("FRESH-LIT", "prefix:distinct", ok, "src/translating/classical_reduction/gamma.rs",
             "the h- and t-prefix are different and neither is a prefix of the other, so hp and tq are different symbols for all p, q of equal ... and hp = tp never: %r / %r" % (a, bb))
-    # who else calls prepend_predicate / here / there
-    callers = sorted({x["def_path"] for x in fx.body_list for n in hq.calls(x["body"], "gamma::prepend_predicate")})
-    ctx.add("FRESH-LIT", "prepend:callers", len(callers) == 2 and all(c.endswith(("::here", "::there")) for c in callers), "src/translating/classical_reduction/gamma.rs",
-            "prepend_predicate is used only by here and there: %s" % callers)
+    # the private helpers of gamma.rs that do the renaming serve here / there only
+    helpers = sorted(dp for dp in fx.bodies if dp.startswith(GAMMA) and "::tests" not in dp and "{" not in dp and dp.split("::")[-1] not in ("gamma",)
+                     and any("insert_str" in str(n.get("method", "")) or (n.get("mac") == "format") for n in walk(fx.bodies[dp][0]["body"])))
+    callers = sorted({x["def_path"] for x in fx.body_list for h in helpers for n in hq.calls(x["body"], h)} - set(helpers))
+    ctx.add("FRESH-LIT", "prepend:callers", all(c.endswith(("::here", "::there")) for c in callers), "src/translating/classical_reduction/gamma.rs",
+            "the renaming helpers %s are used only by here and there: %s" % ([h.split("::")[-1] for h in helpers], callers))
 
 
 RULES = [rule_gamma, rule_apply, rule_prefix]
